@@ -110,6 +110,19 @@ func runC04(r *Run) {
 			}
 		}
 		r.atLeast("composition points", n, 8)
+		// the re-prefixed pattern is built from the route's raw registered pattern (Route.Path), like a group registration
+		// would see it — not from the sub-app's already normalised Route.path
+		pre := r.Fn("", "(*App).addPrefixToRoute")
+		joins := callsMatching(pre, false, nameIs(fiberMod+".getGroupPath"))
+		okRaw := len(joins) == 1 && loadOfField(joins[0].Common.Args[1], "Route.Path")
+		readsNormalised := false
+		for _, fr := range fieldRefs(pre) {
+			if !fr.Write && fr.Name == "Route.path" {
+				readsNormalised = true
+			}
+		}
+		r.check(okRaw && !readsNormalised, "addPrefixToRoute:joins-raw-pattern", r.fpos(pre), "getGroupPath(prefix, route.Path): the raw pattern is re-normalised with the parent's options",
+			"addPrefixToRoute derives the mounted pattern from the sub-app's normalised Route.path instead of the raw Route.Path: the sub-app's own CaseSensitive/StrictRouting handling is baked into the mounted route, unlike a group registration under the parent")
 	})
 
 	r.rule("R5", "processSubAppsRoutes: splice order prefix|clones|suffix, stack replaced afterwards, sub-apps flattened first, positions renumbered (E3/E10)", func() {
